@@ -6,6 +6,16 @@ sys.path.insert(0, VERIF)
 import check  # noqa
 m = json.load(open(os.path.join(VERIF, "MANIFEST.json")))
 k = json.load(open(os.path.join(VERIF, "known_findings.json")))
+have = {c["property_id"] for c in m["checks"]}
+for pid in check.PROPERTIES:
+    if pid not in have:
+        m["checks"].append({"property_id": pid, "quick_cmd": f"python3 check.py {pid} --tier quick", "thorough_cmd": f"python3 check.py {pid} --tier thorough",
+                            "evidence_file": f"/verif/evidence/{pid}.json", "replay_cmd_template": f"python3 check.py {pid} --replay {{path}}", "engine": "polarlint",
+                            "level_claimed": {"category": "other", "text": "", "design_ref": f"DESIGN.md section 4 ({pid}), section 3 (rule families)"},
+                            "level_note": m["checks"][0]["level_note"], "technique": ""})
+m["checks"].sort(key=lambda c: c["property_id"])
+m["not_applicable"] = [e for e in m["not_applicable"] if e["property_id"] not in check.PROPERTIES]
+m["engines"][0]["serves_properties"] = sorted(check.PROPERTIES)
 for c in m["checks"]:
     pid = c["property_id"]
     pr = check.PROPERTIES[pid]
